@@ -12,7 +12,7 @@ use std::collections::BTreeMap;
 pub fn corpus() -> Vec<(String, Vec<Step>)> {
     let mut v = Vec::new();
     let sc = super::c02::scenarios("quick");
-    let alpha = &sc[0].alphabet;
+    let alpha = &sc.iter().find(|s| s.name == "twins").expect("twins scenario").alphabet;
     let base = start_with_s();
     for (i, a) in alpha.iter().enumerate() {
         for (j, b) in alpha.iter().enumerate() {
